@@ -875,7 +875,7 @@ def dist_key(case):
 
 
 def run(ctx, out, replay=None):
-    n = 500 if ctx.quick() else 7000
+    n = 500 if ctx.quick() else 5000
     out.rule = ("full grids of 1x1 .. 5x5 (and 6x1, 1x6) cells on strictly increasing dyadic coordinate lists (unit, "
                 "integer non-uniform, fractional extent, shifted integer / fractional / negative origin, cells so small "
                 "that the integer areas vanish - independently per axis); half of the cases from the ten smallest sizes, "
